@@ -60,6 +60,25 @@ Section Spec.
     Forall2 v_preserved (e_values e) (e_values e').
 End Spec.
 
+(* ---- 1'. owner, with object identity (several Extension objects, possibly with the same name, and
+   definition objects in a heap; records of model/ExtDefs.v Section Heap as plain data) ----
+   every address held in the operations dictionary of the Extension object number i is a live cell that
+   holds an operation definition whose `_extension` pointer is i — the object itself, not merely an
+   extension of the same name — and whose signature names that extension among its requirements *)
+Section SpecHeap.
+  Context {T V M : Type}.
+  Definition held_op_ok (h : list (cell T V M)) (i : nat) (n : name) (a : nat) : Prop :=
+    exists c d, nth_error h a = Some c /\ c_obj c = OOp d /\ c_ext c = Some i /\ op_names_owner n d.
+  Definition heap_names_owner (w : heapw T V M) : Prop :=
+    forall i x, nth_error (hw_exts w) i = Some x ->
+    forall k a, In (k, a) (r_ops x) -> held_op_ok (hw_heap w) i (r_name x) a.
+End SpecHeap.
+(* the same on an observation: (key, index of the Extension object reported as owner, requirements) *)
+Definition held_obs_ok (i : nat) (n : name) (o : list (name * option nat * option (list name))) : bool :=
+  forallb (fun x : name * option nat * option (list name) =>
+    option_eqb Nat.eqb (snd (fst x)) (Some i) &&
+    match snd x with Some rs => mem N.eqb n rs | None => true end) o.
+
 (* ---- 3. boolean equality of documents, for payload types with a decidable equality ---- *)
 Definition opt_name_eqb := option_eqb N.eqb.
 Definition version_eqb (a b : version) : bool :=
